@@ -59,10 +59,12 @@ def check_operators():
 VR = {"vr4": ("VRegion4", "V4", 4, "__m256i"), "vr8": ("VRegion8", "V8", 8, "__m512i")}
 
 
-def lean_dispatch_entry(info, ns, vregs=None, ext=False):
+def lean_dispatch_entry(info, ns, vregs=None, ext=False, opname=None):
     """one match arm for Driver/GenDispatch.lean, or None when the signature is not dispatchable.
     vregs: number of registers a vector-region parameter (`__m256i *`, `Element_avx &`) designates in this module
-    (3 for the planar cubic-extension operands): passed as vregs * lanes words, register 0 first."""
+    (3 for the planar cubic-extension operands): passed as vregs * lanes words, register 0 first.
+    opname: name of the operation on the wire (default: the Lean name)."""
+    opname = opname or info.lean_name
     pats, args = [], []
     k = 0
     for p in info.params:
@@ -108,6 +110,22 @@ def lean_dispatch_entry(info, ns, vregs=None, ext=False):
             pats.append(".w x%d" % k)
             args.append("(BitVec.toInt x%d)" % k)      # an `int` argument: 64-bit two's complement on the wire
             k += 1
+        elif c == "s64" and ext:                       # mpz mode: int64_t, the 64-bit pattern
+            pats.append(".w x%d" % k)
+            args.append("x%d" % k)
+            k += 1
+        elif c == "s32" and ext:                       # int32_t: the low 32 bits of the word
+            pats.append(".w x%d" % k)
+            args.append("(BitVec.setWidth 32 x%d)" % k)
+            k += 1
+        elif c == "mpzc" and ext:                      # mpz_class: a string token, hexadecimal numeral with optional '-'
+            pats.append(".s x%d" % k)
+            args.append("(Driver.intOfHex x%d)" % k)
+            k += 1
+        elif c == "str" and ext:                       # std::string: a string token
+            pats.append(".s x%d" % k)
+            args.append("x%d" % k)
+            k += 1
         else:
             return None
     if getattr(info, "partial", False):
@@ -119,6 +137,11 @@ def lean_dispatch_entry(info, ns, vregs=None, ext=False):
         return None
     if getattr(info, "partial", False) and (len(pats) > 32 or vregs):
         return None
+    if ext and nouts == 1 and (info.outs[0][1] if info.outs[0][0] == "ret" else info.params[info.outs[0][1]]["cat"]) == "str":
+        # a std::string result: reply `ok s:<text>`
+        if getattr(info, "partial", False):
+            return ("str", '  | "%s", [%s] => some (Driver.fmtS (%s))' % (opname, ", ".join(pats), call))
+        return ("str", '  | "%s", [%s] => some (Driver.fmtS (some (%s)))' % (opname, ", ".join(pats), call))
 
     def proj(i):
         if nouts == 1:
@@ -154,8 +177,10 @@ def lean_dispatch_entry(info, ns, vregs=None, ext=False):
             c = info.params[o[1]]["cat"]
             nm = info.params[o[1]]["name"]
         pr = proj(i)
-        if c == "u64":
+        if c == "u64" or (c == "s64" and ext):
             outs.append("[%s]" % pr)
+        elif c == "s32" and ext:
+            outs.append("[BitVec.signExtend 64 %s]" % pr)      # int32_t result: sign-extended to the 64-bit word
         elif c == "bool":
             outs.append("[if %s then 1#64 else 0#64]" % pr)
         elif c == "v4":
@@ -178,13 +203,13 @@ def lean_dispatch_entry(info, ns, vregs=None, ext=False):
         body = re.sub(r"\bx(\d+)\.length\b", lambda mm: "(Driver.rD a %s).length" % mm.group(1), body)
         body = re.sub(r"\(Region\.ofList x(\d+)\)", lambda mm: "(Region.ofList (Driver.rD a %s))" % mm.group(1), body)
         body = re.sub(r"(?<![A-Za-z0-9_.])x(\d+)\b", lambda mm: "(Driver.wD a %s)" % mm.group(1), body)
-        return ("long", '  | "%s" => if !Driver.kindsOk a "%s" then none else %s' % (info.lean_name, kinds, body))
+        return ("long", '  | "%s" => if !Driver.kindsOk a "%s" then none else %s' % (opname, kinds, body))
     if getattr(info, "partial", False):
         # partial function (fuel / Option): `none` = the process was ended by the code (the fuel of the driver is never
         # exhausted on the executed cases); the implementation side is run in a forked child and reports `err exit 255`
         return ("partial", '  | "%s", [%s] => some (Driver.fmtP ((%s).map fun res => %s))' % (
-            info.lean_name, ", ".join(pats), call, " ++ ".join(outs)))
-    return '  | "%s", [%s] => let res := %s; some (%s)' % (info.lean_name, ", ".join(pats), call, " ++ ".join(outs))
+            opname, ", ".join(pats), call, " ++ ".join(outs)))
+    return '  | "%s", [%s] => let res := %s; some (%s)' % (opname, ", ".join(pats), call, " ++ ".join(outs))
 
 
 CPP_CLASS = {"Goldilocks": "Goldilocks", "Goldilocks3": "Goldilocks3", "PoseidonGoldilocks": "PoseidonGoldilocks"}
@@ -197,7 +222,8 @@ def cpp_fn_pointer_type(fty):
     return "%s (*)%s" % (ret, params)
 
 
-def cpp_dispatch_entry(info, vregs=None, ext=False):
+def cpp_dispatch_entry(info, vregs=None, ext=False, opname=None):
+    opname = opname or info.lean_name
     d = info.decl
     cls = d.get("_class")
     if cls not in CPP_CLASS:
@@ -206,7 +232,7 @@ def cpp_dispatch_entry(info, vregs=None, ext=False):
     if "noexcept" in fty:
         return None
     lines = []
-    lines.append('  if (fn == "%s") {' % info.lean_name)
+    lines.append('  if (fn == "%s") {' % opname)
     lines.append('    auto f = static_cast<%s>(&%s::%s);' % (cpp_fn_pointer_type(fty), cls, d["name"]))
     call_args = []
     post = []
@@ -243,6 +269,26 @@ def cpp_dispatch_entry(info, vregs=None, ext=False):
             call_args.append(v)
         elif c == "int" and ext:
             lines.append("    int %s = (int)(int64_t)A.w();" % v)
+            call_args.append(v)
+        elif c in ("s64", "s32") and ext:
+            cty, rd_, wr_ = (("int64_t", "(int64_t)A.w()", "(uint64_t)%s"), ("int32_t", "(int32_t)(uint32_t)A.w()", "(uint64_t)(int64_t)%s"))[c == "s32"]
+            if mode == "out":
+                lines.append("    %s %s = (%s)0x5A5A5A5A5A5A5A5AULL;" % (cty, v, cty))
+            else:
+                lines.append("    %s %s = %s;" % (cty, v, rd_))
+            if mode != "in":
+                post.append("    outw(%s);" % (wr_ % v))
+            call_args.append(v)
+        elif c == "mpzc" and ext and mode == "in":
+            lines.append("    std::string %s_s = A.s(); mpz_class %s; if (%s.set_str(%s_s, 16) != 0) { A.bad = true; return true; }" % (v, v, v, v))
+            call_args.append(v)
+        elif c == "str" and ext:
+            if mode == "out":
+                lines.append("    std::string %s;" % v)
+            else:
+                lines.append("    std::string %s = A.s();" % v)
+            if mode != "in":
+                post.append("    g_outs = %s;" % v)
             call_args.append(v)
         elif c in VR and vregs == 3:
             # three planar registers, passed as 3 * lanes words; the array lives in a (guarded) buffer
@@ -303,6 +349,12 @@ def cpp_dispatch_entry(info, vregs=None, ext=False):
             lines.append("    uint64_t r = %s; outw(r);" % call)
     elif rc == "bool":
         lines.append("    bool r = %s; outw(r ? 1 : 0);" % call)
+    elif rc == "s64" and ext:
+        lines.append("    int64_t r = %s; outw((uint64_t)r);" % call)
+    elif rc == "s32" and ext:
+        lines.append("    int32_t r = %s; outw((uint64_t)(int64_t)r);" % call)
+    elif rc == "str" and ext:
+        lines.append("    g_outs = %s;" % call)
     elif rc in ("v4", "v8"):
         n = 4 if rc == "v4" else 8
         ty = "__m256i" if rc == "v4" else "__m512i"
@@ -371,6 +423,7 @@ def main():
         tr = Translator(ast, m["ns"])
         tr.unroll_max = m.get("unroll_max", tr_cxx.UNROLL_MAX)
         tr.ext = bool(m.get("ext"))
+        tr_cxx.MPZ_MODE = bool(m.get("mpz"))     # mpz_class / std::string / signed fixed-width integers (this module only)
         tr.prior_fns = reg_fns
         tr.prior_consts = reg_consts
         tr.globals = glob_map
@@ -459,14 +512,15 @@ def main():
                     continue
                 if getattr(info, "alias", None):
                     continue
-                la = lean_dispatch_entry(info, m["ns"], m.get("vregion_regs"), bool(m.get("ext")))
-                ca = cpp_dispatch_entry(info, m.get("vregion_regs"), bool(m.get("ext"))) if la else None
+                opname = m.get("dispatch_prefix", "") + info.lean_name     # name of the operation on the wire
+                la = lean_dispatch_entry(info, m["ns"], m.get("vregion_regs"), bool(m.get("ext")), opname)
+                ca = cpp_dispatch_entry(info, m.get("vregion_regs"), bool(m.get("ext")), opname) if la else None
                 if la and ca:
                     new_ref[info.lean_name] = {"module": name, "fty": info.decl["type"]["qualType"], "arm": ca,
                                                "sig": (st.get("sigs") or {}).get(info.lean_name)}
                     if m.get("ext"):
                         # entries of the extended-translator modules live in Driver/GenDispatchP.lean (own compilation unit)
-                        if isinstance(la, tuple) and la[0] == "partial":
+                        if isinstance(la, tuple) and la[0] in ("partial", "str"):
                             lean_partial_arms.append(la[1])
                         elif isinstance(la, tuple):
                             la = None
@@ -482,6 +536,7 @@ def main():
                         lean_arms.append(la)
                     cpp_arms.append(ca)
         status["modules"][name] = st
+    tr_cxx.MPZ_MODE = False
     for modname, lname, fty in failed_roots:
         r = disp_ref.get(lname)
         mst = status["modules"].get(modname, {})
@@ -518,6 +573,15 @@ def main():
            "def fmtP : Option (List (BitVec 64)) → String",
            "  | none => \"err exit 255\"",
            "  | some ws => if ws.isEmpty then \"ok\" else \"ok \" ++ fmtWords ws", "",
+           "/-- a std::string result (mpz-mode modules) -/",
+           "def fmtS : Option String → String",
+           "  | none => \"err exit 255\"",
+           "  | some s => if s.isEmpty then \"ok\" else \"ok s:\" ++ s", "",
+           "/-- an mpz_class argument on the wire: hexadecimal numeral with optional '-' (string token) -/",
+           "def intOfHex (s : String) : Int :=",
+           "  match s.toList with",
+           "  | '-' :: r => - (((parseHex (String.ofList r)).getD 0 : Nat) : Int)",
+           "  | _ => (((parseHex s).getD 0 : Nat) : Int)", "",
            "def genDispatchP (fn : String) (args : List Arg) : Option String :=",
            "  match fn, args with"]
     pl += lean_partial_arms
